@@ -1052,6 +1052,13 @@ def run(ctx: Ctx, rep: Report, tier: str) -> None:
     from .c09 import grammar_reads_protocols
 
     grammar_reads_protocols(ctx, rep, rid="R01.19")
+    # R01.20 a wildcard mask is read bit by bit over all 32 positions (C05 R05.8): a loop that stops one short reads
+    # `10.0.0.0 128.0.0.255` as half of the addresses it names
+    from .c05 import r05_8
+
+    sub58 = type(rep)("C01")
+    r05_8(ctx, sub58)
+    rep.absorb(sub58, "R01.20")
     # R01.15 an address in the text is read whole (C13 R13.7)
     from .c13 import address_patterns_whole
 
